@@ -560,6 +560,16 @@ def zoo(tier='quick'):
     Z.append(two_zone('xz_firm_gov_flows', dict(firm='fm1', caps=True), dict(gov='tre_cb', firm='multi'),
                       [G('AA.GOV', 'AA.BUS', name='SUBSIDY', inc_dst=True), G('AA.BUS', 'BB.HH', name='BONUS', inc_src=True, inc_dst=True),
                        G('BB.BUS', 'AA.GOV', name='LICENCE', inc_src=False, inc_dst=True), G('BB.TRE', 'AA.CAP', name='COUPON', inc_src=True, inc_dst=False)]))
+    # a sector living in the external (numeraire) country sends to / receives from real-currency sectors
+    p = two_zone('xz_numeraire_fund', {}, dict(caps=True, firm='fm1'), [])
+    p.decl('EXT.FUND', lambda c: Sector(c['EXT'], c.nm('FUND')), needs=('EXT',), group='EXT')
+    gift(p, 'EXT.FUND', 'AA.HH', name='AID')
+    gift(p, 'AA.HH', 'EXT.FUND', name='REPAY', inc_src=False)
+    gift(p, 'BB.CAP', 'EXT.FUND', name='FEE')
+    gift(p, 'EXT.FUND', 'BB.GOV', name='GRANT', inc_dst=False)
+    gift(p, 'AA.HH', 'BB.HH')
+    p.features.add('numeraire-sector')
+    Z.append(p)
     # zone = federation, other zone = single country
     p = Plan('xz_fed_plus_single')
     external(p)
